@@ -6,7 +6,7 @@
 //! * Read-only accessors for the debt node list and the thread-local bookkeeping.
 
 use alloc::vec::Vec;
-use core::sync::atomic::{AtomicUsize, Ordering};
+use core::sync::atomic::{AtomicPtr, Ordering};
 
 macro_rules! sites {
     ($($name: ident),* $(,)?) => {
@@ -44,19 +44,21 @@ sites! {
     CACHE_LOAD,
 }
 
-static HOOK: AtomicUsize = AtomicUsize::new(0);
+static HOOK: AtomicPtr<()> = AtomicPtr::new(core::ptr::null_mut());
 
 /// Installs (or removes) the step hook.
 pub fn set_step_hook(hook: Option<fn(u16)>) {
-    HOOK.store(hook.map(|f| f as usize).unwrap_or(0), Ordering::Relaxed);
+    let raw = hook.map(|f| f as *mut ()).unwrap_or(core::ptr::null_mut());
+    HOOK.store(raw, Ordering::Relaxed);
 }
 
 /// A step point.
 #[inline]
 pub fn step(site: Site) {
     let hook = HOOK.load(Ordering::Relaxed);
-    if hook != 0 {
-        let hook: fn(u16) = unsafe { core::mem::transmute(hook) };
+    if !hook.is_null() {
+        // A pointer (not an integer) so that the function pointer keeps its provenance under Miri.
+        let hook: fn(u16) = unsafe { core::mem::transmute::<*mut (), fn(u16)>(hook) };
         hook(site as u16);
     }
 }
